@@ -84,6 +84,53 @@ def segs_tok(segs):
     return "|".join(s.hex() for s in segs) if segs else "."
 
 
+def length_sweep(rep, tier, rng, root, viol):
+    """value lengths around every power of ten up to a million, and DELs naming 100 / 101 / 10 present keys: every decimal a
+    reply can carry as a length or a count with 1..7 digits and a carry in it. Interactive: after a wrong reply the connection
+    is replaced (the stream may be out of step), after three the sweep ends."""
+    lens = sorted(set(list(range(0, 130)) + [x + d for x in (1000, 10000, 100000, 1000000) for d in range(-3, 102 if tier != "quick" or x <= 10000 else 4)] + [65535, 65536, 99, 999, 9999]))
+    shutil.rmtree(root, ignore_errors=True)
+    env = dict(ENV)
+    s = Session([HBIN, "net", "--root", root], env=env, timeout=60)
+    nbad, cn = 0, 0
+    try:
+        s.ask("srv.start max=64 mfs=300")
+        s.ask("c.open len0")
+
+        def step(lines, exp, what):
+            nonlocal nbad, cn
+            ans = s.ask_many(lines)
+            rep.cov["evaluations"] += len(lines)
+            rep.count("length_sweep_replies")
+            if ans[-1] != exp:
+                nbad += 1
+                viol("oracle", f"{what}: the reply is not the one the key-value map gives (a length or count is mis-encoded)", [x[:120] for x in lines], exp[:200], ans[-1][:200])
+                s.ask(f"c.close len{cn}")
+                cn += 1
+                s.ask(f"c.open len{cn}")
+        for L in lens:
+            if nbad >= 3:
+                break
+            b = rng.getrandbits(8)
+            step([f"c.sendbig len{cn} 6c {b:02x} {L}", f"c.read len{cn} 1 5000"], "S:4f4b", f"SET of a {L}-byte value")
+            step([f"c.send len{cn} {req_bytes(('GET', b'l')).hex()}", f"c.read len{cn} 1 5000"], "B:" + show_val(bytes([b]) * L), f"GET of a {L}-byte value")
+        for nk in (100, 101, 10):
+            if nbad >= 3:
+                break
+            ks_ = [b"d%03d" % i for i in range(nk)]
+            lines = []
+            for k in ks_:
+                lines += [f"c.send len{cn} {req_bytes(('SET', k, b'1')).hex()}", f"c.read len{cn} 1 5000"]
+            s.ask_many(lines)
+            step([f"c.send len{cn} {req_bytes(('DEL', ks_)).hex()}", f"c.read len{cn} 1 5000"], f"I:{nk}", f"DEL naming {nk} present keys")
+        s.ask("srv.stop")
+    except Died as d:
+        viol("oracle", f"length sweep: harness died / hung ({d.why})", d.answered[-3:], "-", "process death")
+    finally:
+        s.close()
+        shutil.rmtree(root, ignore_errors=True)
+
+
 def run_c06(rep, tier, seed):
     rng = random.Random(seed * 1000 + 6)
     ncases = 120 if tier == "quick" else 1200
@@ -148,30 +195,6 @@ def run_c06(rep, tier, seed):
             impl_lines.append(f"c.close {cid}")
             cases.append(("pipeline", start, len(impl_lines) - start, len(model_lines), reqs, expected))
             model_lines.append(f"serve {data.hex()}")
-    # value lengths around every power of ten up to a million, and a DEL naming 100 / 101 present keys: every decimal a reply
-    # can carry as a length or a count with 1..7 digits and a carry in it
-    lens = sorted(set(list(range(0, 130)) + [x + d for x in (1000, 10000, 100000, 1000000) for d in range(-3, 102 if tier != "quick" or x <= 10000 else 4)] + [65535, 65536, 99, 999, 9999]))
-    cid = "len"
-    st_len = len(impl_lines)
-    impl_lines.append(f"c.open {cid}")
-    len_checks = []
-    for L in lens:
-        b = rng.getrandbits(8)
-        impl_lines.append(f"c.sendbig {cid} 6c {b:02x} {L}")
-        impl_lines.append(f"c.read {cid} 1 30000")
-        len_checks.append((len(impl_lines) - 1, "S:4f4b", f"SET of a {L}-byte value"))
-        impl_lines.append(f"c.send {cid} {req_bytes(('GET', b'l')).hex()}")
-        impl_lines.append(f"c.read {cid} 1 30000")
-        len_checks.append((len(impl_lines) - 1, "B:" + show_val(bytes([b]) * L), f"GET of a {L}-byte value"))
-    for nk in (100, 101, 10):
-        ks_ = [b"d%03d" % i for i in range(nk)]
-        for k in ks_:
-            impl_lines.append(f"c.send {cid} {req_bytes(('SET', k, b'1')).hex()}")
-            impl_lines.append(f"c.read {cid} 1 8000")
-        impl_lines.append(f"c.send {cid} {req_bytes(('DEL', ks_)).hex()}")
-        impl_lines.append(f"c.read {cid} 1 8000")
-        len_checks.append((len(impl_lines) - 1, f"I:{nk}", f"DEL naming {nk} present keys"))
-    impl_lines.append(f"c.close {cid}")
     # the client library (net/client.rs) against a scripted one-shot server: what Client::{get,set,del} send and what they
     # return for the reply the map model gives, for error replies, for replies of the wrong kind, for truncated replies and
     # for end of stream — compared with the Lean client model (Resp/Client.lean, `cl.call` in the driver)
@@ -294,12 +317,7 @@ def run_c06(rep, tier, seed):
                 viol("oracle", "replies on a pipelined connection differ from the key-value map's", impl_lines[st:st + n], ";".join(exp), ";".join(got))
             elif mout[0] != hx(expected):
                 viol("correspondence", "model and server disagree on the reply stream", impl_lines[st:st + n], hx(expected), model[mi])
-    for (li, exp, what) in len_checks:
-        if li < len(impl):
-            rep.count("length_sweep_replies")
-            if impl[li] != exp:
-                viol("oracle", f"{what}: the reply is not the one the key-value map gives (a length or count is mis-encoded)",
-                     [x[:120] for x in impl_lines[li - 3:li + 1]], exp[:200], impl[li][:200])
+    length_sweep(rep, tier, rng, root + "-len", viol)
     for (st_, ngets, tok) in big_checks:
         if st_ + 5 < len(impl):
             rep.count("large_reply_cases")
